@@ -94,6 +94,12 @@ Definition cmds : cmd_table := [
           Some (PPair (of_outcome PBool (valid_nmap_range (pton6_of tab) (ext_lookup tab) s))
                       (of_gen (iter_nmap_range (pton6_of tab) (ext_lookup tab) [s])))
       | _ => None end);
+  (* a CIDR target of any size: [valid_nmap_range(s), first three addresses of iter_nmap_range(s) | error] *)
+  ("nmap_cidr_probe", fun args => match args with
+      | [PStr s; PList tab] =>
+          let g := cidr_probe (pton6_of tab) s in
+          Some (PPair (of_outcome PBool (valid_of_gen g)) (of_gen g))
+      | _ => None end);
   ("nmap_iter", fun args => match args with
       | [PList specs; PList tab] =>
           match strs_of specs with
